@@ -31,7 +31,7 @@ def cases(tier, seed):
         rng = core.stream(s, "gen")
         progs = []
         for i in range(PER_BATCH[tier]):
-            F = {"p_hidden": 0.0, "p_setc": 0.6, "p_two_packages": 0.4}
+            F = {"p_hidden": 0.0, "p_fparam": 0.0, "p_setc": 0.6, "p_two_packages": 0.4}
             p = progen.gen_program(rng, F)
             roots = [n["id"] for n in p["nodes"] if n["kind"] == "memento" and n["explicit"] is None]
             calls = [[roots[rng.randrange(len(roots))], rng.choice([0, 1, 2])] for _ in range(rng.randrange(1, 4))]
